@@ -786,6 +786,8 @@ def _isinstance1(eng, v, cname, node, st):
     if k == "union":
         tag, a, b = v.t
         return z3.If(tag, _isinstance1(eng, a, cname, node, st), _isinstance1(eng, b, cname, node, st))
+    if k == "enum":
+        return z3.BoolVal(cname == v.ty.arg)
     prim = {"int": ("int", "bool"), "bool": ("bool",), "str": ("str",), "list": ("list",), "float": (), "dict": (),
             "tuple": ("tuple",)}
     if cname in prim:
